@@ -346,6 +346,21 @@ func getMapIndex(key reflect.Value, aMap reflect.Value) reflect.Value {
 	return value
 }
 
+// fieldByIndex is reflect.Value.FieldByIndex, except that it reports a nil embedded pointer on the way to the
+// field (false) instead of panicking.
+func fieldByIndex(v reflect.Value, index []int) (reflect.Value, bool) {
+	for i, x := range index {
+		if i > 0 && v.Kind() == reflect.Ptr {
+			if v.IsNil() {
+				return reflect.Value{}, false
+			}
+			v = v.Elem()
+		}
+		v = v.Field(x)
+	}
+	return v, true
+}
+
 // arrayAsSlice returns a slice over a copy of the elements of an array value; any other value is returned as it is.
 // reflect can neither append to an array nor slice one that is not addressable.
 func arrayAsSlice(v reflect.Value) reflect.Value {
